@@ -1,10 +1,13 @@
 #!/bin/sh
-# run_seed.sh <patch.diff> <prop> [<prop>...] : applies the change to /repo, runs the quick checks, reverts.
+# run_seed.sh <patch.diff> <prop> [<prop>...] : applies the change to a scratch worktree of /repo (so that
+# /repo itself - which background runs may be reading - stays untouched), runs the quick checks, removes it.
+V="$(cd "$(dirname "$0")/.." && pwd)"
 PATCH="$1"; shift
-cd /repo && git diff --quiet || { echo "/repo is dirty"; exit 9; }
-git -C /repo apply "$PATCH" || exit 9
+WT=/tmp/wt_runseed_$$
+git -C /repo worktree add -q --detach "$WT" HEAD || exit 9
+git -C "$WT" apply "$PATCH" || { git -C /repo worktree remove --force "$WT"; exit 9; }
 for p in "$@"; do
-  out=$(cd /verif && ./check "$p" --tier ${TIER:-quick} --no-evidence 2>&1); rc=$?
+  out=$(cd "$V" && RV_REPO="$WT" ./check "$p" --tier ${TIER:-quick} --no-evidence 2>&1); rc=$?
   echo "$p rc=$rc $(echo "$out" | grep -c '^VIOLATION') violations; $(echo "$out" | grep -m2 '^VIOLATION\|^UNDECIDED\|^CHECKER' | cut -c1-220 | tr '\n' ' ')"
 done
-git -C /repo checkout -- . ; git -C /repo status --short | head -3
+git -C /repo worktree remove --force "$WT"
